@@ -117,13 +117,15 @@ def cones_in_box(rng, n, lo, hi, k=3, smax=4.0):
 # ------------------------------------------------------------------------------------------------
 # Problem wrapper
 # ------------------------------------------------------------------------------------------------
-def make_problem(n, lo, hi, desc, fail_at=None, exc='RuntimeError', answers=None):
+def make_problem(n, lo, hi, desc, fail_at=None, exc='RuntimeError', answers=None, fail_region=None, returns_new_holder=False):
     """A Problem whose Calculate logs (point, value) and can raise at call number fail_at (1-based)."""
     from iOpt.problem import Problem
 
     f = objective(desc)
     excs = {'RuntimeError': RuntimeError, 'KeyboardInterrupt': KeyboardInterrupt, 'SystemExit': SystemExit,
-            'ValueError': ValueError, 'Exception': Exception, 'GeneratorExit': GeneratorExit, 'ZeroDivisionError': ZeroDivisionError}
+            'ValueError': ValueError, 'Exception': Exception, 'GeneratorExit': GeneratorExit, 'ZeroDivisionError': ZeroDivisionError,
+            'StopIteration': StopIteration, 'StopAsyncIteration': StopAsyncIteration, 'MemoryError': MemoryError, 'AssertionError': AssertionError}
+    fail_set = set(fail_at) if isinstance(fail_at, (list, tuple, set)) else ({fail_at} if fail_at is not None else set())
 
     class P(Problem):
         def __init__(self):
@@ -142,26 +144,43 @@ def make_problem(n, lo, hi, desc, fail_at=None, exc='RuntimeError', answers=None
 
         def Calculate(self, point, functionValue):
             self.calls += 1
-            if fail_at is not None and self.calls == fail_at:
+            if self.calls in fail_set:
                 self.answers.append(('raise',))
                 raise excs[exc]('injected failure at call %d' % self.calls)
             y = [float(v) for v in point.floatVariables]
+            if fail_region is not None and fail_region[1] <= y[fail_region[0]] <= fail_region[2]:      # undefined on a slab of the box
+                self.answers.append(('raise',))
+                raise excs[exc]('objective undefined at %r' % (y,))
             v = f(y)
             self.log.append((y, v))
             self.answers.append(('v', v))
+            if returns_new_holder:      # a functional-style problem: fills and returns a NEW FunctionValue (the signature allows it)
+                from iOpt.trial import FunctionValue
+                fv = FunctionValue(functionValue.type, functionValue.functionID)
+                fv.value = v
+                return fv
             functionValue.value = v
             return functionValue
 
     return P()
 
 
-def make_solver(problem, r=2.0, eps=0.01, iters=1000, density=None, refine=False):
+def make_solver(problem, r=2.0, eps=0.01, iters=1000, density=None, refine=False, start=None):
     from iOpt.solver import Solver
     from iOpt.solver_parametrs import SolverParameters
     kw = dict(eps=eps, r=r, itersLimit=iters, refineSolution=refine)
     if density is not None:
         kw['evolventDensity'] = density
+    if start is not None:      # the documented startPoint parameter (a user's guess of the solution)
+        import numpy as np
+        from iOpt.trial import Point
+        kw['startPoint'] = Point(np.array(start, dtype=np.double), [])
     return Solver(problem, parameters=SolverParameters(**kw))
+
+
+def random_start(rng, lo, hi):
+    """a start point strictly inside the box, away from the centre and the faces"""
+    return [a + (b - a) * rng.choice([rng.uniform(0.08, 0.42), rng.uniform(0.58, 0.92)]) for a, b in zip(lo, hi)]
 
 
 @contextlib.contextmanager
